@@ -50,6 +50,15 @@ MUTANTS = [
     dict(id='c06-post-init-keeps-size1', property='C06', file='fggs/indices.py', old="            subst = {k:unitAxis for k in self.paxes if k._numel == 1}\n            if subst:", new="            subst = {k:unitAxis for k in self.paxes if k._numel == 1}\n            if False and subst:"),
     dict(id='c06-copy_-alias', property='C06', file='fggs/indices.py', old='                self.physical = src.physical.clone()\n        else:\n            self.physical = src.physical.clone()', new='                self.physical = src.physical.clone()\n        else:\n            self.physical = src.physical'),
     dict(id='c06-to_dense-fastpath-reorder', property='C06', file='fggs/indices.py', old='    return (virtual.as_strided(tuple(k._numel  for k in paxes),', new='    return (virtual.as_strided(tuple(k._numel  for k in paxes),', expect='silent'),
+    # ---- C07
+    dict(id='c07-einsum-no-default_to', property='C07', file='fggs/indices.py', old="    #print(depict_einsum('einsum', tensors, inputs, output), file=stderr)\n    tensors = [tensor.default_to(zero.item()) for tensor in tensors]", new="    #print(depict_einsum('einsum', tensors, inputs, output), file=stderr)\n    tensors = list(tensors)"),
+    dict(id='c07-log-einsum-no-nan_to_num', property='C07', file='fggs/semirings.py', old="            a.add_(b)\n            torch.nan_to_num(a, nan=-inf, posinf=inf, neginf=-inf, out=a)\n        def callback(compute_sum):\n            u = torch_semiring_einsum.utils", new="            a.add_(b)\n        def callback(compute_sum):\n            u = torch_semiring_einsum.utils"),
+    dict(id='c07-viterbi-pointer-stride', property='C07', file='fggs/indices.py', old='        for k, alpha in s.items(): p = p.add(paxis_to_ptr[k], alpha=alpha)', new='        for k, alpha in s.items(): p = p.add(paxis_to_ptr[k])'),
+    dict(id='c07-viterbi-pointer-offset', property='C07', file='fggs/indices.py', old='        p = ptr.new_tensor(o, dtype=torch.long).expand(out.size())', new='        p = ptr.new_tensor(0, dtype=torch.long).expand(out.size())'),
+    dict(id='c07-unify-failure-not-zero', property='C07', file='fggs/indices.py', old="                if not index_to_vaxis[index].unify(vaxis, subst):\n                    result_is_zero = True\n            else:\n                index_to_vaxis[index] = vaxis\n    output_vaxes = tuple(index_to_vaxis[index].clone(subst) for index in output)",
+         new="                if not index_to_vaxis[index].unify(vaxis, subst):\n                    result_is_zero = False\n            else:\n                index_to_vaxis[index] = vaxis\n    output_vaxes = tuple(index_to_vaxis[index].clone(subst) for index in output)"),
+    dict(id='c07-bool-einsum-ge', property='C07', file='fggs/semirings.py', old='block_size=torch_semiring_einsum.AUTOMATIC_BLOCK_SIZE) > 0', new='block_size=torch_semiring_einsum.AUTOMATIC_BLOCK_SIZE) > 1'),
+    dict(id='c07-post-einsum-order', property=['C07', 'C01'], file='fggs/equation.py', old="    unsqueeze_index = sorted([compiled_equation.output_variables.index(v)\n                              for v in removed_vars])", new="    unsqueeze_index = [compiled_equation.output_variables.index(v)\n                              for v in sorted(removed_vars)]"),
     # ---- C16
     dict(id='c16-copy-shares-nodes-dict', property='C16', file='fggs/fggs.py', old='        copy._nodes = dict(self._nodes)', new='        copy._nodes = self._nodes'),
     dict(id='c16-remove-node-no-ext-guard', property='C16', file='fggs/fggs.py', old="        if node in self.ext:\n            raise ValueError", new="        if False and node in self.ext:\n            raise ValueError"),
